@@ -45,6 +45,7 @@ type Scenario struct {
 	Proto  string `json:"p,omitempty"`      // client protocol: 1.1 | 1.0ka
 	M2     string `json:"m2,omitempty"`     // method of the second request ("" = GET | POST | HEAD)
 	Pipe   bool   `json:"pipe,omitempty"`   // the second request is already sent (same write) when the fault happens
+	Split  int    `json:"split,omitempty"`  // > 0: the origin writes its k bytes in two writes, cut at this offset
 	Two    bool   `json:"two,omitempty"`    // corruption of the two bytes at Pos, Pos+1 (Repl, Repl2)
 	Repl2  int    `json:"repl2,omitempty"`
 	Pos    int    `json:"pos,omitempty"`  // corruption position
@@ -210,18 +211,36 @@ func scenarios(tier string) ([]Scenario, map[string]int) {
 	if tier == "thorough" {
 		m2s, pipes = []string{"", "POST", "HEAD"}, []bool{false, true}
 	}
+	methods := []string{"GET", "POST"}
+	if tier == "thorough" {
+		methods = []string{"GET", "POST", "HEAD"}
+	}
 	for _, sc := range scripts(tier) {
 		for _, pr := range protos {
-			if len(sc.wire) > 1000 && pr != "1.1" {
-				continue // the long scripts: HTTP/1.1 clients only
-			}
 			for _, reused := range []bool{false, true} {
-				for _, m := range []string{"GET", "POST"} {
+				for _, m := range methods {
 					for _, m2 := range m2s {
 						for _, pipe := range pipes {
 							for k := 0; k <= len(sc.wire); k++ {
 								add(Scenario{Kind: "truncate", Script: sc.name, K: k, Reused: reused, Method: m, Proto: pr, M2: m2, Pipe: pipe})
 							}
+						}
+					}
+				}
+			}
+		}
+	}
+	// 1b (thorough). the short scripts again with the origin's k bytes cut into two writes at every offset j < k
+	if tier == "thorough" {
+		for _, sc := range scripts(tier) {
+			if len(sc.wire) > 120 {
+				continue
+			}
+			for _, reused := range []bool{false, true} {
+				for _, m := range []string{"GET", "POST"} {
+					for k := 2; k <= len(sc.wire); k++ {
+						for j := 1; j < k; j++ {
+							add(Scenario{Kind: "truncate", Script: sc.name, K: k, Split: j, Reused: reused, Method: m, Proto: "1.1"})
 						}
 					}
 				}
@@ -448,7 +467,7 @@ func runScenario(s *Scenario, kind string, quiet time.Duration) *runOut {
 		if req.Method == "HEAD" && strings.HasSuffix(req.Target, "/second") {
 			return h1harness.Action{Write: [][]byte{secondResp[:len(secondResp)-len(marker)]}}
 		}
-		if req.Method != "GET" && req.Method != "POST" {
+		if req.Method != "GET" && req.Method != "POST" && !(req.Method == "HEAD" && s.Method == "HEAD") {
 			// e.g. left-over bytes of an earlier request body glued in front of the method
 			return h1harness.Action{Write: [][]byte{[]byte("HTTP/1.1 400 Bad Request\r\nContent-Length: 10\r\nX-Origin-Saw-Method: " + fmt.Sprintf("%q", req.Method) + "\r\n\r\nbad method")}}
 		}
@@ -463,6 +482,9 @@ func runScenario(s *Scenario, kind string, quiet time.Duration) *runOut {
 			injected = true
 			mu.Unlock()
 			if first && s.Kind != "dial" {
+				if s.Split > 0 && s.Split < len(faultBytes) {
+					return h1harness.Action{Write: [][]byte{faultBytes[:s.Split], faultBytes[s.Split:]}, Close: true}
+				}
 				return h1harness.Action{Write: [][]byte{faultBytes}, Close: true}
 			}
 			// a retry (or the dial scenarios' second attempt): serve the complete response
